@@ -69,6 +69,12 @@ type Bad struct{}
 // initialisation; using it is an unsupported-operation error.
 type Poison struct{ Why string }
 
+// OByteRef is &b[i] for b = []byte(opaque string): it can only be loaded.
+type OByteRef struct {
+	T   *smt.Term // the sequence
+	Idx *smt.Term // 64-bit index, in range on this path
+}
+
 // SymElemRef is the result of an IndexAddr with a symbolic index whose only
 // uses are loads: the load becomes an if-then-else chain over the elements.
 type SymElemRef struct {
